@@ -28,9 +28,14 @@ def inspect_bcrypt_hash(hash: str) -> BcryptHashInfo | None:
     if not result:
         return None
 
+    try:
+        rounds = int(result.group("rounds"))
+    except ValueError:
+        # (python refuses to convert absurdly long digit strings)
+        return None
     return BcryptHashInfo(
         prefix=result.group("prefix"),
-        rounds=int(result.group("rounds")),
+        rounds=rounds,
         salt=result.group("salt"),
         hash=result.group("hash"),
     )
